@@ -6,6 +6,12 @@ class Injected(OSError):
     pass
 
 
+class InjectedAssert(AssertionError):
+    # the package's own refusals are assertions: every other injected fault is one, so that no handler is exercised by one
+    # exception type only
+    pass
+
+
 @contextlib.contextmanager
 def inject(k):
     """k = index of the mutation that fails (0-based); k < 0 = count only.  Yields a dict with 'n' (mutations seen)
@@ -32,7 +38,7 @@ def inject(k):
                 state['log'].append(f"{name} {where} {a[0] if a and isinstance(a[0], str) else ''}")
                 if idx == k:
                     state['fired'] = True
-                    raise Injected(f'injected fault at mutation {idx}: {name}')
+                    raise (InjectedAssert if idx % 2 else Injected)(f'injected fault at mutation {idx}: {name}')
             state['depth'] += 1
             try:
                 return orig(self, *a, **kw)
